@@ -297,11 +297,12 @@ func (c *Client) Listen() error {
 				break
 			}
 
+			// A datagram that cannot be handled (malformed STUN, a request, a
+			// non-STUN datagram from the server address) is discarded; it must
+			// not end the read loop, or every later response would be lost.
 			_, err = c.HandleInbound(buf[:n], from)
 			if err != nil {
-				c.log.Debugf("Failed to handle inbound message: %s. Exiting loop", err)
-
-				break
+				c.log.Debugf("Failed to handle inbound message: %s", err)
 			}
 		}
 
